@@ -124,8 +124,9 @@ def judge(case, impl, model):
         fails.append((f"error-class:{got['err']}:{kinds}", f"Deserializer raised {got['err']}: {got.get('msg')} for " + json.dumps(case["doc"])[:200]))
     if "ok" in got and model.get("implWellFormed") is False:
         fails.append((f"ill-formed-instance:{kinds}", "Deserializer returned an instance that violates its declaration: " + json.dumps(got["ok"])[:300]))
-    offpath = S.null_in_nested_object(case["doc"]) and S.offpath_inline(case["cls"])
-    if model.get("liftable") and not offpath and not S.crosstype_duplicates(case["doc"]):
+    # (until /repo 2133150 a null inside an inline StructureReference reached through a Map value / Tuple / Deque / nested
+    #  Array was handed to the field as None; such documents were excluded here. They are judged like any other now.)
+    if model.get("liftable") and not S.crosstype_duplicates(case["doc"]):
         exp = model["expected"]
         if "ok" in exp:
             if "ok" not in got:
@@ -139,16 +140,6 @@ def judge(case, impl, model):
         if ("ok" in fn) != ("ok" in got) or ("err" in fn and fn["err"] != got["err"]) or ("ok" in fn and not S._same(fn["ok"], got["ok"])):
             fails.append((f"deserialize-fn-differs:{kinds}", "deserialize_structure(cls, d, keep_undefined=...) and Deserializer(cls).deserialize(d) disagree: "
                           + json.dumps(fn)[:150] + " vs " + json.dumps(got)[:150] + " for " + json.dumps(case["doc"])[:150]))
-    if model.get("liftable") and offpath and not S.crosstype_duplicates(case["doc"]):
-        # a null for an optional field INSIDE an inline StructureReference that is reached through a Map value, a Tuple
-        # item, a Deque or a nested Array: everywhere else (class references at any position, an inline class held
-        # directly or as a direct Array item) a null is the same as an absent key; there it is handed to the field as
-        # the value None.  The Lean model reads a null as absent everywhere (the documented reading), so only the
-        # over-rejection is reported here (correspondence is not demanded for these documents).
-        exp = model["expected"]
-        if "ok" in exp and "ok" not in got:
-            fails.append(("rejects-image:null-in-off-path-inline-reference",
-                          f"document is the JSON form of constructor-valid arguments (a null = an absent optional field) but the Deserializer raises {got['err']}: {got.get('msg')}; doc " + json.dumps(case["doc"])[:250]))
     if impl.get("doc_unchanged") is False:
         fails.append((f"mutates-document:{kinds}", "Deserializer modified the caller's document (C19)"))
     return msg, fails
